@@ -300,7 +300,7 @@ CONTRACTS.append(MatchTailC())
 
 
 # ------------------------------------------------------------------------------------------- MatchTail.__init__
-from pyvc.engine import VList, VClass, Obligation   # noqa: E402
+from pyvc.engine import VList, VClass, Obligation, VStr, VOpaque   # noqa: E402
 
 PArr = z3.ArraySort(z3.IntSort(), z3.SeqSort(z3.IntSort()))
 
@@ -479,3 +479,322 @@ class MatchTailInit(Contract):
 
 
 CONTRACTS.append(MatchTailInit())
+
+
+# ------------------------------------------------------------------------------------------- HeadersEaeter.eat
+class HeadersEat(Contract):
+    """the dispatcher of the post-delimiter state machine.  With the (proved) contracts of the three small eaters and the stated
+    contract of _eat_headers as callees:
+      * None is returned only when the eater that was consulted needs more input (returned None) - never because a position
+        happened to be 0 or negative;
+      * a position is returned only as the result of _eat_headers, entered exactly at the position the CRLF eater returned, and
+        then the eater is reset to _eat_first_crlf_or_last_hyphens for the next delimiter;
+      * StopMarkupException is raised exactly when an eater recognised the closing delimiter (stopped), and nothing else is
+        raised by the dispatcher itself;
+      * the recursion is the single step from a CRLF eater to _eat_headers (depth 1)."""
+    props = ('C06',)
+    file = 'ombott/request_pkg/multipart.py'
+    qualname = 'HeadersEaeter.eat'
+    assumptions = ('callee contracts of _eat_first_crlf_or_last_hyphens, _eat_lf, _eat_last_hyphen as proved above',
+                   '_eat_headers(chunk, base) returns None (more input needed; it may update headers_end_expected) or an int position '
+                   '(possibly 0 or negative: the terminator may have begun in an earlier chunk), or raises MalformedHeadersError; it does '
+                   'not touch eat_meth / stopped  [its body uses a regular expression: bounded only]',
+                   'the recursive call obeys this contract for eat_meth == _eat_headers (partial correctness; the recursion happens only '
+                   'after eat_meth was set to _eat_headers, so its depth is 1)')
+    expected_labels = ('none.only_when_the_consulted_eater_needs_more_input', 'pos.is_the_result_of_eat_headers',
+                       'pos.eater_reset_for_the_next_delimiter', 'headers.entered_where_the_crlf_eater_stopped',
+                       'raise.stop_iff_closing_delimiter_seen', 'raise.nothing_else_from_the_dispatcher')
+
+    def pre(self, X):
+        g = X.globals
+        self.Stop, self.Mal, self.End = g['StopMarkupException'], g['MalformedHeadersError'], g['UnexpectedBodyEndError']
+        self.chunk = X.fresh(BytesSort, 'chunk')
+        self.base = X.fresh(z3.IntSort(), 'base')
+        X.assume(z3.And(self.base >= 0, self.base <= L(self.chunk)))
+        self.start = ('first', 'lf', 'hyphen', 'headers')[X.choose(4, 'eat_meth on entry')]
+        self.log = []           # what happened, in order
+        self.hdr_result = None
+        self.hdr_base = None
+        self.pre_pos = None
+        self.raised_by_callee = False
+        c = self
+        me = VObj('HE', {'stopped': VBool(False), 'headers_end_expected': NONE})
+
+        def set_meth(name):
+            me.fields['eat_meth'] = c.m[name]
+
+        def first(X, args, kwargs):
+            c.log.append('first')
+            k = X.choose(6, 'first: None | None->lf | None->hyphen | CRLF | -- | Malformed')
+            if k == 0:
+                return NONE
+            if k == 1:
+                set_meth('lf')
+                return NONE
+            if k == 2:
+                set_meth('hyphen')
+                return NONE
+            if k == 3:
+                c.pre_pos = args[1].t + 2
+                return VInt(c.pre_pos)
+            if k == 4:
+                me.fields['stopped'] = VBool(True)
+                c.pre_pos = args[1].t + 2
+                return VInt(c.pre_pos)
+            c.raised_by_callee = True
+            X.raise_(c.Mal, 'first')
+
+        def lf(X, args, kwargs):
+            c.log.append('lf')
+            k = X.choose(3, 'lf: None | LF | Malformed')
+            if k == 0:
+                return NONE
+            if k == 1:
+                c.pre_pos = args[1].t + 1
+                return VInt(c.pre_pos)
+            c.raised_by_callee = True
+            X.raise_(c.Mal, 'lf')
+
+        def hyphen(X, args, kwargs):
+            c.log.append('hyphen')
+            k = X.choose(3, 'hyphen: None | - | UnexpectedBodyEnd')
+            if k == 0:
+                return NONE
+            if k == 1:
+                me.fields['stopped'] = VBool(True)
+                c.pre_pos = args[1].t + 1
+                return VInt(c.pre_pos)
+            c.raised_by_callee = True
+            X.raise_(c.End, 'hyphen')
+
+        def headers(X, args, kwargs):
+            c.log.append('headers')
+            c.hdr_base = args[1].t if len(args) > 1 and isinstance(args[1], VInt) else None
+            k = X.choose(3, 'headers: None | position | Malformed')
+            if k == 0:
+                c.hdr_result = NONE
+                return NONE
+            if k == 1:
+                p = X.fresh(z3.IntSort(), 'headers_end')     # any int: 0 and negative values included
+                c.hdr_result = VInt(p)
+                return c.hdr_result
+            c.raised_by_callee = True
+            X.raise_(c.Mal, 'headers')
+
+        def rec(X, args, kwargs):
+            # the recursive call: contract of eat for eat_meth == _eat_headers
+            c.log.append('rec')
+            X.prove('rec.only_with_eat_headers_selected', z3.BoolVal(me.fields.get('eat_meth') is c.m['headers']))
+            r = headers(X, [None, args[1]] if len(args) > 1 else [None], {})
+            if not isinstance(r, VNone):
+                set_meth('first')
+            return r
+        self.m = {'first': VFunc(first, '_eat_first_crlf_or_last_hyphens'), 'lf': VFunc(lf, '_eat_lf'),
+                  'hyphen': VFunc(hyphen, '_eat_last_hyphen'), 'headers': VFunc(headers, '_eat_headers')}
+        me.fields.update({'eat_meth': self.m[self.start], '_eat_headers': self.m['headers'],
+                          '_eat_first_crlf_or_last_hyphens': self.m['first'], '_eat_lf': self.m['lf'],
+                          '_eat_last_hyphen': self.m['hyphen'], 'eat': VFunc(rec, 'eat')})
+        self.me = me
+        return {'self': me, 'chunk': VBytes(self.chunk), 'base': VInt(self.base)}
+
+    def post(self, X, ret):
+        me = self.me
+        stopped = X.truth(me.fields['stopped'])
+        X.prove('raise.stop_iff_closing_delimiter_seen', z3.Not(stopped))      # returning normally: no closing delimiter was recognised
+        if isinstance(ret, VNone):
+            # the LAST consulted eater returned None
+            last_none = (self.hdr_result is not None and isinstance(self.hdr_result, VNone)) if self.log[-1] in ('headers', 'rec') \
+                else self.pre_pos is None
+            X.prove('none.only_when_the_consulted_eater_needs_more_input', z3.BoolVal(bool(last_none)))
+            return
+        ok = isinstance(ret, VInt) and isinstance(self.hdr_result, VInt)
+        X.prove('pos.is_the_result_of_eat_headers', ret.t == self.hdr_result.t if ok else z3.BoolVal(False))
+        X.prove('pos.eater_reset_for_the_next_delimiter', z3.BoolVal(me.fields.get('eat_meth') is self.m['first']))
+        if self.start != 'headers':
+            X.prove('headers.entered_where_the_crlf_eater_stopped',
+                    self.hdr_base == self.pre_pos if self.hdr_base is not None and self.pre_pos is not None else z3.BoolVal(False))
+        else:
+            X.prove('headers.entered_where_the_crlf_eater_stopped',
+                    self.hdr_base == self.base if self.hdr_base is not None else z3.BoolVal(False))
+
+    def post_raise(self, X, exc):
+        if self.raised_by_callee:
+            X.prove('raise.nothing_else_from_the_dispatcher', z3.BoolVal(exc.pyclass in (self.Mal, self.End)))
+            return
+        X.prove('raise.nothing_else_from_the_dispatcher', z3.BoolVal(exc.pyclass is self.Stop))
+        X.prove('raise.stop_iff_closing_delimiter_seen', X.truth(self.me.fields['stopped']))
+
+
+CONTRACTS.append(HeadersEat())
+
+
+# ------------------------------------------------------------------------------------------- BodyMarkuper.iter_markup
+class IterMarkup(Contract):
+    """section emission with absolute offsets.  With the section eaters as callees (each returns the end of its section relative
+    to the chunk, or None when the chunk is used up, the header eater may raise StopMarkupException at the closing delimiter):
+
+      * every emitted section is (kind, (start, abspos + end)): kind is 'headers' after the header eater and 'data' after the data /
+        start-boundary eater; start is where the previous separator ended (for the first section of a chunk: the saved start);
+      * after a data section the separator is the delimiter (tlen bytes) followed by CRLF (skipped: the header eater is entered
+        right after the delimiter, the next section starts 2 bytes later); after a headers section it is CRLFCRLF (4 bytes);
+      * the eaters alternate data -> headers -> data ...;
+      * when the chunk is used up, abspos advances by len(chunk) and the current eater and section start are saved; at the closing
+        delimiter `stopped` is set and nothing more is emitted - also from later chunks;
+      * a body that starts directly with the boundary (no leading CRLF) yields an empty first data section (start, 0), never a
+        negative end."""
+    props = ('C06',)
+    file = 'ombott/request_pkg/multipart.py'
+    qualname = 'BodyMarkuper.iter_markup'
+    ghost_const = ()
+    assumptions = ('callee contracts: _eat_data / _eat_start_boundary / HeadersEaeter.eat return None or an int; only the header eater raises '
+                   'StopMarkupException; other exceptions propagate (bounded: _eat_data; proved: eat relative to _eat_headers)',
+                   'section ends are absolute positions >= 0, except that the start-boundary eater reports -2 (absolute) for a body that begins '
+                   'with the boundary itself (possibly recognised only in a later chunk)')
+    expected_labels = ('yield.kind_matches_the_eater', 'yield.section_is_start_to_absolute_end', 'next.eater_alternates',
+                       'next.entered_right_after_the_separator', 'next.section_start_after_separator', 'exit.state_saved_and_position_advanced',
+                       'stop.sets_stopped_and_emits_nothing_more', 'stopped.emits_nothing')
+
+    def pre(self, X):
+        g = X.globals
+        self.Stop = g['StopMarkupException']
+        self.chunk = X.fresh(BytesSort, 'chunk')
+        self.abspos0 = X.fresh(z3.IntSort(), 'abspos')
+        self.ass0 = X.fresh(z3.IntSort(), 'abs_start_section')
+        self.tlen = X.fresh(z3.IntSort(), 'tlen')
+        X.assume(z3.And(self.abspos0 >= 0, self.tlen >= 5))
+        self.was_stopped = X.choose(2, 'stopped on entry?') == 1
+        self.kind0 = ('start', 'data', 'headers')[X.choose(3, 'saved eater')]
+        self.calls = []          # (eater kind, base term, result term or None)
+        self.yields = []
+        self.stop_raised = False
+        c = self
+
+        def mk(kind):
+            def eater(X, args, kwargs):
+                base = args[1].t if len(args) > 1 and isinstance(args[1], VInt) else None
+                X.prove('call.eater_gets_the_chunk', z3.BoolVal(len(args) == 2 and isinstance(args[0], VBytes) and base is not None)
+                        if False else z3.BoolVal(len(args) == 2 and base is not None))
+                outcomes = 3 if kind == 'headers' else 2
+                k = X.choose(outcomes, f'{kind} eater: None | position' + (' | Stop' if kind == 'headers' else ''))
+                if k == 0:
+                    c.calls.append((kind, base, None))
+                    return NONE
+                if k == 2:
+                    c.calls.append((kind, base, 'stop'))
+                    c.stop_raised = True
+                    X.raise_(c.Stop, 'closing delimiter')
+                e = X.fresh(z3.IntSort(), 'end_section')
+                # the end of a section is an absolute position >= 0 (it may lie in an earlier chunk: e < 0); only the start-boundary
+                # eater may report -2 absolute: a body that begins with the boundary itself, as if a CRLF preceded it
+                if kind == 'start':
+                    X.assume(z3.Or(c.abspos0 + e >= 0, c.abspos0 + e == -2))
+                else:
+                    X.assume(c.abspos0 + e >= 0)
+                c.calls.append((kind, base, e))
+                return VInt(e)
+            return VFunc(eater, {'start': '_eat_start_boundary', 'data': '_eat_data', 'headers': '_eat_headers'}[kind])
+        self.m = {k: mk(k) for k in ('start', 'data', 'headers')}
+        self.me = VObj('BM', {'stopped': VBool(self.was_stopped), 'cur_meth': self.m[self.kind0], 'abs_start_section': VInt(self.ass0),
+                              'abspos': VInt(self.abspos0), 'tlen': VInt(self.tlen), '_eat_data': self.m['data'],
+                              '_eat_headers': self.m['headers'], '_eat_start_boundary': self.m['start']})
+        X.setg('it', VInt(0))
+        return {'self': self.me, 'chunk': VBytes(self.chunk)}
+
+    # ---- loop 0 (while True): locals at the head of an iteration
+    def _kind_of(self, X):
+        f = X.env.get('cur_meth')
+        for k, v in self.m.items():
+            if f is v:
+                return k
+        return None
+
+    def havoc_override(self, X, k, name):
+        if name == 'cur_meth':
+            self.head_kind = ('start', 'data', 'headers')[X.choose(3, 'eater at the head of this iteration')]
+            return self.m[self.head_kind]
+        return None
+
+    def _inv(self, X):
+        it = X.g('it').t
+        kind = self._kind_of(X)
+        s0, a0, sk = X.env['start_next_sec'].t, X.env['abs_start_section'].t, X.env['skip_start'].t
+        first = z3.And(it == 0, s0 == 0, a0 == self.ass0, z3.BoolVal(kind == self.kind0))
+        later = z3.And(it > 0, z3.BoolVal(kind in ('data', 'headers')), a0 == self.abspos0 + s0 + sk,
+                       sk == (2 if kind == 'headers' else 0))
+        return [('section_start_bookkeeping', z3.And(it >= 0, z3.Or(first, later))),
+                ('position_not_yet_advanced', X.truth(VBool(True)) if not isinstance(self.me.fields['abspos'], VInt)
+                 else self.me.fields['abspos'].t == self.abspos0),
+                ('not_stopped_while_scanning', z3.Not(X.truth(self.me.fields['stopped'])))]
+
+    @property
+    def loop_inv(self):
+        return {0: self._inv}
+
+    def after_havoc(self, X, k):
+        self.calls_at_head = len(self.calls)
+        self.yields_at_head = len(self.yields)
+
+    def on_yield(self, X, val):
+        self.yields.append(val)
+        if self.was_stopped:
+            X.prove('stopped.emits_nothing', z3.BoolVal(False))
+            return
+        kind, base, e = self.calls[-1] if self.calls else (None, None, None)
+        ok = isinstance(val, VTuple) and len(val.items) == 2 and isinstance(val.items[0], VStr) and isinstance(val.items[1], VTuple) \
+            and len(val.items[1].items) == 2 and all(isinstance(i, VInt) for i in val.items[1].items) and z3.is_expr(e)
+        if not ok:
+            X.prove('yield.section_is_start_to_absolute_end', z3.BoolVal(False))
+            return
+        name, (st, en) = val.items[0], val.items[1].items
+        X.prove('yield.kind_matches_the_eater', name.t == z3.StringVal('headers' if kind == 'headers' else 'data'))
+        a0 = self.head_a0
+        end_abs = self.abspos0 + e
+        want_end = z3.If(z3.And(z3.BoolVal(kind == 'start'), end_abs < 0), z3.IntVal(0), end_abs)
+        X.prove('yield.section_is_start_to_absolute_end', z3.And(st.t == a0, en.t == want_end, en.t >= 0 if kind == 'start' else z3.BoolVal(True)))
+
+    def before_body_snapshot(self, X):
+        pass
+
+    def end_of_body(self, X, k):
+        # one full iteration: an eater returned a position, a section was emitted, the next eater is set up
+        kind, base, e = self.calls[-1]
+        X.prove('call.one_eater_call_and_one_section_per_iteration',
+                z3.BoolVal(len(self.calls) == self.calls_at_head + 1 and len(self.yields) == self.yields_at_head + 1))
+        X.prove('call.eater_entered_at_start_next_sec', base == self.head_s0)
+        nk = self._kind_of(X)
+        X.prove('next.eater_alternates', z3.BoolVal(nk == ('data' if kind == 'headers' else 'headers')))
+        s1, a1 = X.env['start_next_sec'].t, X.env['abs_start_section'].t
+        sep = 4 if kind == 'headers' else self.tlen
+        X.prove('next.entered_right_after_the_separator', s1 == e + sep)
+        X.prove('next.section_start_after_separator', a1 == self.abspos0 + e + sep + (0 if kind == 'headers' else 2))
+        X.setg('it', VInt(X.g('it').t + 1))
+
+    def after_loop(self, X, k, how):
+        pass
+
+    # snapshot of the locals right after the invariant was assumed (head of the generic iteration)
+    def loop_head(self, X, k):
+        self.head_s0 = X.env['start_next_sec'].t
+        self.head_a0 = X.env['abs_start_section'].t
+
+    def post(self, X, ret):
+        me = self.me
+        if self.was_stopped:
+            X.prove('stopped.emits_nothing', z3.BoolVal(not self.yields and not self.calls))
+            return
+        if self.stop_raised:
+            X.prove('stop.sets_stopped_and_emits_nothing_more', X.truth(me.fields['stopped']))
+            return
+        # the chunk is used up: the last eater returned None
+        kind, base, e = self.calls[-1]
+        saved = me.fields['cur_meth'] is self.m[kind] and isinstance(me.fields['abspos'], VInt) and isinstance(me.fields['abs_start_section'], VInt)
+        X.prove('exit.state_saved_and_position_advanced',
+                z3.And(z3.BoolVal(bool(saved) and e is None), me.fields['abspos'].t == self.abspos0 + L(self.chunk),
+                       me.fields['abs_start_section'].t == self.head_a0, z3.Not(X.truth(me.fields['stopped'])))
+                if saved else z3.BoolVal(False))
+
+    def post_raise(self, X, exc):
+        X.prove('raises.only_what_an_eater_raised', z3.BoolVal(False))
+
+
+CONTRACTS.append(IterMarkup())
